@@ -21,7 +21,16 @@ func VerifC04_FetchFallback() {
 	// what a modern publisher answers for paths outside its IPNI mount
 	otherStatus := []int{http.StatusBadRequest, http.StatusNotFound, http.StatusForbidden}[verif_Choose("statusOutsideMount", 0, 2)]
 	exists := map[string]bool{"head": true, "blk": true}
+	// one request (-1: none) is answered with a transient fault status instead
+	faultAt := verif_Choose("faultAtRequest", 0, 3) - 1
+	faultStatus := []int{http.StatusForbidden, http.StatusNotFound, http.StatusInternalServerError}[verif_Choose("faultStatus", 0, 2)]
+	reqNo, faulted := 0, false
 	rt := &vRT{fn: func(req *http.Request) (*http.Response, error) {
+		reqNo++
+		if reqNo-1 == faultAt {
+			faulted = true
+			return vResp(faultStatus, nil), nil
+		}
 		p := req.URL.Path
 		rsrc, ok := "", false
 		if legacy {
@@ -47,9 +56,13 @@ func VerifC04_FetchFallback() {
 	for i := 0; i < n; i++ {
 		r := []string{"head", "blk", "missing"}[verif_Choose("resource", 0, 2)]
 		got := false
+		faulted = false
 		err := s.fetch(context.Background(), r, func(io.Reader) error { got = true; return nil })
 		verif_Reach("fetched")
-		if exists[r] {
+		if faulted {
+			// the fetch that met the fault may fail; it must not impair the later ones
+			verif_Assert(got == (err == nil), "a fetch reports success exactly when it delivered the resource")
+		} else if exists[r] {
 			verif_Assert(err == nil && got, "an existing resource is fetched from a publisher that answers correctly, whatever failed before")
 		} else {
 			verif_Assert(err != nil && !got, "a missing resource is reported as an error")
